@@ -41,6 +41,12 @@ class ReplayDiverged(Exception):
     pass
 
 
+class Inconclusive(Exception):
+    """Returned by a check's on_hang(): the run was stopped by a budget or the spin watchdog in a place the check
+    knows to be slow but finite (not a hang, not a violation, not a harness fault).  The run is counted under the
+    probe 'inconclusive:<reason>' and decides nothing."""
+
+
 class SimSpin(BaseException):
     """Raised asynchronously (by the wall-clock watchdog) inside a task that keeps the baton
     without ever reaching a yield point: a pure CPU loop in the code under test."""
